@@ -383,7 +383,8 @@ class Printer(sympy.printing.printer.Printer):
     def _print_ordinary_pow(self, expr):
         """ Handles Pow(), hanles just ordinary powers without division. """
         p = precedence(expr)
-        return self._bracket(expr.base, p) + '**' + self._bracket(expr.exp, p)
+        # ** is right-associative: a base that is itself a power needs brackets
+        return self._bracket(expr.base, p + 1) + '**' + self._bracket(expr.exp, p)
 
     def _print_Pow(self, expr):
         """ Handles Pow(), which includes all division. """
